@@ -479,6 +479,7 @@ def apply_overlay(repo_src_dir, out_src_dir, units, canary=False, only_files=Non
         rel = file[4:]
         src = open(os.path.join(repo_src_dir, rel)).read()
         repl = []
+        hoisted = []
         for u in by_file.get(file, []):
             try:
                 s, e = rustscan.find_item(src, u.name, u.kind, u.container, u.nth)
@@ -495,10 +496,20 @@ def apply_overlay(repo_src_dir, out_src_dir, units, canary=False, only_files=Non
                 except Undecided as ex:
                     raise Undecided("unit %s: %s" % (u.id, ex))
                 status = 'transplanted'
-            text = 'verus! { // @unit %s\n%s' % (u.id, new if new.endswith('\n') else new + '\n')
+            text = 'verus! { // @unit %s\n' % u.id
+            if u.meta.get('hoist'):
+                # methods with `&mut` parameters cannot be wrapped alone inside a foreign `impl`: the method is moved,
+                # verbatim, into an `impl` block of its own at the end of the file
+                text += u.container + ' {\n'
+            text += new if new.endswith('\n') else new + '\n'
             if canary and u.canary:
                 text += make_canary(new, u.name).rstrip('\n') + '\n'
+            if u.meta.get('hoist'):
+                text += '}\n'
             text += '} // verus! @end %s\n' % u.id
+            if u.meta.get('hoist'):
+                hoisted.append(text)
+                text = ''
             repl.append((s, e, text))
             report[u.id] = {'id': u.id, 'file': file, 'status': status, 'sha_current': sha(cur),
                             'sha_pinned': sha(u.pinned), 'edits': script.edits(), 'props': u.props,
@@ -515,6 +526,7 @@ def apply_overlay(repo_src_dir, out_src_dir, units, canary=False, only_files=Non
             pos = e
         out.append(src[pos:])
         res = ''.join(out)
+        res += '\n' + '\n'.join(hoisted)
         res += '\n#[allow(unused_imports)] use vstd::prelude::*;\n#[allow(unused_imports)] use crate::verif_specs::*;\n'
         ap = os.path.join(CONTRACTS, stem_of(file), '_appendix.rs')
         if os.path.exists(ap):
@@ -557,7 +569,7 @@ def line_map(out_src_dir, files):
 
 # --------------------------------------------------------------------------- capture (authoring)
 
-def capture(work_src_dir, repo_src_dir, file, name, kind='fn', container=None, nth=0, props=None, canary=None):
+def capture(work_src_dir, repo_src_dir, file, name, kind='fn', container=None, nth=0, props=None, canary=None, hoist=None):
     rel = file[4:]
     wsrc = open(os.path.join(work_src_dir, rel)).read()
     rsrc = open(os.path.join(repo_src_dir, rel)).read()
@@ -576,10 +588,14 @@ def capture(work_src_dir, repo_src_dir, file, name, kind='fn', container=None, n
         meta['props'] = old.props
         if 'canary' in old.meta:
             meta['canary'] = old.meta['canary']
+        if 'hoist' in old.meta:
+            meta['hoist'] = old.meta['hoist']
     if props is not None:
         meta['props'] = props
     if canary is not None:
         meta['canary'] = canary
+    if hoist:
+        meta['hoist'] = True
     meta.setdefault('props', [])
     # self-check: replaying the script on the pinned text must give the annotated text
     sc = Script(pinned.split('\n'), ann.split('\n'))
